@@ -69,6 +69,7 @@ it leave the candidate role (so the log a winner leads with is the log it advert
 theorem C03_candidate_log_frozen (s s' : PSys) (e : Event) (h : applyEvent s e = .ok s') (j : Nat)
     (h1 : (s.nodes j).role = 1) (h2 : (s'.nodes j).role = 1) : (s'.nodes j).log = (s.nodes j).log := by
   cases e with
+  | read r => obtain ⟨rd, hs⟩ := read_frame h; subst hs; rfl
   | release i key =>
     simp only [applyEvent, ok] at h
     split at h
